@@ -2,6 +2,7 @@ package file
 
 import (
 	"bytes"
+	"encoding/binary"
 	"fmt"
 
 	"github.com/jfrog/go-rpm"
@@ -13,12 +14,44 @@ import (
 // the header's own counts and panics on some malformed headers (e.g. a string array that announces more strings
 // than the store holds); that must end as an error, not as a crash of the program.
 func readRPMPackage(data []byte) (r *rpm.PackageFile, err error) {
+	if !rpmCountsPlausible(data) {
+		return nil, fmt.Errorf("malformed RPM header: index or item count exceeds the data present")
+	}
 	defer func() {
 		if p := recover(); p != nil {
 			r, err = nil, fmt.Errorf("malformed RPM header: %v", p)
 		}
 	}()
 	return rpm.ReadPackageFile(bytes.NewReader(data))
+}
+
+// rpmCountsPlausible walks the lead and the two header structures and refuses headers whose index count or store
+// length exceeds the bytes that follow, or whose entries announce more items than the store has bytes. go-rpm
+// allocates make([]T, ItemCount) straight from the file, so a 150-byte file could otherwise demand gigabytes.
+func rpmCountsPlausible(data []byte) bool {
+	off := 96 // the lead
+	for h := 0; h < 2; h++ {
+		if len(data) < off+16 {
+			return true // truncated: the library reports it
+		}
+		avail := uint64(len(data) - off - 16)
+		n := uint64(binary.BigEndian.Uint32(data[off+8:]))
+		l := uint64(binary.BigEndian.Uint32(data[off+12:]))
+		if n > avail/16 || l > avail-16*n {
+			return false
+		}
+		for i := uint64(0); i < n; i++ {
+			e := data[uint64(off)+16+16*i:]
+			if uint64(binary.BigEndian.Uint32(e[12:16])) > l {
+				return false
+			}
+		}
+		off += 16 + int(16*n+l)
+		if pad := 8 - int(l%8); pad < 8 {
+			off += pad
+		}
+	}
+	return true
 }
 
 // rpmStringByTag returns the first string of a tag, or "" when the tag is absent, is not a string tag or is empty.
